@@ -255,6 +255,21 @@ func natMulCase(c *Ctx, x, y []uint64, thr string, zkind int) {
 		z = dirtyBuf(len(x) + len(y) + 9)
 	case 3:
 		z = xw // aliased with x: must not be reused
+	case 4, 5:
+		// aliased with an operand that lives in a buffer with plenty of spare capacity (a receiver that
+		// earlier held a much longer value): the spare room must not tempt the code into working in place
+		src := xw
+		if zkind == 5 {
+			src = yw
+		}
+		buf := dirtyBuf(8*(len(x)+len(y)) + 10)[:len(src)]
+		copy(buf, src)
+		if zkind == 4 {
+			xw = buf
+		} else {
+			yw = buf
+		}
+		z = buf
 	}
 	key := func() string {
 		return fmt.Sprintf("mul x=%s y=%s thresholds=%s z=%d", wordsKey(x), wordsKey(y), thr, zkind)
@@ -271,7 +286,7 @@ func natMulCase(c *Ctx, x, y []uint64, thr string, zkind int) {
 	c.NonTrivial()
 	if !eqWords(got, want) {
 		c.Fail(key(), fmt.Sprintf("product wrong: got %s want %s", wordsKey(fromWords(got)), wordsKey(want)))
-	} else if zkind != 3 && !eqWords(xw, x) || !eqWords(yw, y) {
+	} else if (zkind != 3 && zkind != 4 && !eqWords(xw, x)) || (zkind != 5 && !eqWords(yw, y)) {
 		c.Fail(key(), "operand modified")
 	}
 	poolProblems(c, key())
@@ -299,6 +314,20 @@ func natSqrCase(c *Ctx, x []uint64, thr string) {
 		c.Fail(key(), fmt.Sprintf("square wrong: got %s want %s", wordsKey(fromWords(got)), wordsKey(want)))
 	} else if !eqWords(xw, x) {
 		c.Fail(key(), "operand modified")
+	}
+	// in place: the destination is the operand itself, in a buffer with plenty of spare capacity
+	// (z.Mul(z, z) on a receiver that earlier held a longer product)
+	if len(x) > 0 {
+		buf := dirtyBuf(8*len(x) + 10)[:len(x)]
+		copy(buf, xw)
+		var got2 []Word
+		pv, _ := protect(func() { got2 = decimal.VerifDecSqr(buf, buf) })
+		if pv != nil {
+			c.Fail(key()+" in place", fmt.Sprintf("panic: %v", pv))
+			theAdvPool.takeProblems()
+		} else if !eqWords(got2, want) {
+			c.Fail(key()+" in place", fmt.Sprintf("square wrong when the destination is the operand (spare capacity %d words): got %s want %s", cap(buf)-len(x), wordsKey(fromWords(got2)), wordsKey(want)))
+		}
 	}
 	poolProblems(c, key())
 	if c.WantSample() {
@@ -427,7 +456,7 @@ func natLayers(tier string) []Layer {
 							if c.Done() {
 								return
 							}
-							natMulCase(c, x, y, thr, (xi+yi)%4)
+							natMulCase(c, x, y, thr, (xi+yi)%6)
 						}
 					}
 				}
